@@ -3,6 +3,7 @@
 package kcp
 
 import (
+	"bytes"
 	"fmt"
 	"net"
 	"time"
@@ -256,6 +257,156 @@ func vfC06(c *hx.Ctx) {
 			u.Executions, u.NonTrivial, u.EndStatesN = judged+passed, judged, judged
 			u.Notes = append(u.Notes, fmt.Sprintf("this shard: %d datagrams at their history positions, %d corruptions judged (fail the check), %d not judged (pass the check); by kind %v", dgrams, judged, passed, byKind))
 			u.Samples = append(u.Samples, map[string]any{"cipher": ciph, "fec": fec, "corruption": "burst-31 at bit offset 200 of datagram #3, pattern ends-only", "expected": "deep hash unchanged"})
+			if len(u.Violations) > 0 {
+				u.Exhaustive = false
+			}
+			u.WallS = time.Since(start).Seconds()
+			c.AddUnit(u)
+		}
+	}
+	vfC06Loops(c)
+}
+
+// vfC06Loops: the same guarantee THROUGH the receive loops (the battery calls packetInput directly): after an exchange,
+// every datagram too short to carry an integrity check (every length 0..27, two fills) and corrupted copies of genuine
+// datagrams are put on the wire towards the dialled session and towards the listener (from the peer's and from a foreign
+// address), on the plain and on the batch (recvmmsg) receive loop, while a reader is blocked on the destination. Time has
+// to pass for the loops to run, so the oracle is functional: the blocked reader is not disturbed, no counter but
+// InCsumErrors moves, no session appears or disappears, and a second exchange completes with the right bytes.
+func vfC06Loops(c *hx.Ctx) {
+	for ci, ciph := range []string{"aes-128", "salsa20", "aes-gcm", "none"} {
+		for _, batch := range []bool{false, true} {
+			name := fmt.Sprintf("through-the-receive-loops/cipher=%s/batch=%v", ciph, batch)
+			if c.Skip(name) || (c.Of > 1 && (2*ci+map[bool]int{false: 0, true: 1}[batch])%c.Of != c.Shard) {
+				continue
+			}
+			start := time.Now()
+			u := &hx.Unit{Name: name, Kind: "enum", Exhaustive: true, Params: map[string]any{"cipher": ciph, "batch_receive_loop": batch, "lengths": "0..27", "fills": []int{0, 255},
+				"corrupted_copies": "first, middle and last byte of every genuine datagram flipped", "destinations": "dialled session; listener from the peer's address; listener from a foreign address"}}
+			var injected int64
+			viol := func(sig, msg string) {
+				if len(u.Violations) < 4 {
+					u.Violations = append(u.Violations, c.NewViolation(name, u.Params, sig, msg, ""))
+				}
+			}
+			cf := vfPairCfg{Cipher: ciph, SDS: -1, Stream: true, NoDelay: [4]int{1, 10, 2, 1}, Writes: []int{40}, WritesBack: []int{30}, ReadBuf: 4096, Pool: vrt.PoolPlain, HorizonS: 30}
+			_, wc := vfBlockCrypt(ciph)
+			if batch {
+				cf.Batch = 1
+			}
+			out := vrt.Run(vrt.Config{Chooser: vfDefaultChooser{}, TimerEarlyCost: -1, Horizon: 30 * time.Second, MaxSteps: 3000000}, func() {
+				p := vfPairSetup(cf)
+				var genuine [2][][]byte // datagrams seen towards the client [0] and towards the listener [1]
+				p.net.onSend = func(from, to *vfSock, data []byte) {
+					if to == p.csock {
+						genuine[0] = append(genuine[0], append([]byte(nil), data...))
+					} else if to == p.lsock {
+						genuine[1] = append(genuine[1], append([]byte(nil), data...))
+					}
+				}
+				p.traffic()
+				if p.fail != "" {
+					viol("C06:harness:"+p.sig, "the genuine traffic itself failed: "+p.fail)
+					return
+				}
+				p.mu.Lock()
+				srv := p.server
+				p.mu.Unlock()
+				vrt.Sleep(300 * time.Millisecond) // everything acknowledged, both ends idle
+				foreign := vfUDP(66, 6666)
+				for round, dst := range []string{"client", "listener", "listener-foreign-address"} {
+					target, sock, from, peer := p.client, p.csock, net.Addr(p.laddr), srv
+					if dst != "client" {
+						target, sock, from, peer = srv, p.lsock, net.Addr(p.caddr), p.client
+					}
+					if dst == "listener-foreign-address" {
+						from = foreign
+					}
+					var bad [][]byte
+					for l := 0; l < 28; l++ {
+						for _, fill := range []byte{0x00, 0xff} {
+							b := make([]byte, l)
+							for k := range b {
+								b[k] = fill
+							}
+							if _, _, _, ok, err := wire.Decrypt(wc, b); err == nil && !ok { // (20 zero bytes pass a bare CRC32: an empty payload)
+								bad = append(bad, b)
+							}
+						}
+					}
+					gi := 0
+					if dst != "client" {
+						gi = 1
+					}
+					for _, g := range genuine[gi] {
+						for _, at := range []int{0, len(g) / 2, len(g) - 1} {
+							b := append([]byte(nil), g...)
+							b[at] ^= 0x10
+							if _, _, _, ok, err := wire.Decrypt(wc, b); err == nil && !ok { // the independent decoder says it fails the check
+								bad = append(bad, b)
+							}
+						}
+					}
+					type res struct {
+						n   int
+						err error
+						at  int64
+					}
+					done := vrt.MakeChan[res](1)
+					buf := make([]byte, 256)
+					target.SetReadDeadline(vrt.Now().Add(5 * time.Second))
+					vrt.Go("blocked-reader", func() {
+						n, err := target.Read(buf)
+						done.Send(res{n, err, vrt.NowNS()})
+					})
+					vrt.Sleep(time.Millisecond)
+					snmp := *DefaultSnmp.Copy()
+					p.listener.sessionLock.RLock()
+					ns := len(p.listener.sessions)
+					p.listener.sessionLock.RUnlock()
+					for _, b := range bad {
+						sock.inject(from, b)
+						injected++
+					}
+					vrt.Sleep(20 * time.Millisecond)
+					after := *DefaultSnmp.Copy()
+					snmp.InCsumErrors, after.InCsumErrors = 0, 0
+					if dst == "listener-foreign-address" {
+						// (the dialled session is not involved; the listener has no session for that address)
+					}
+					if snmp != after {
+						viol("C06:failed-check-changes-state:counters:through-the-receive-loop:"+dst, fmt.Sprintf("%d datagrams that cannot pass the integrity check, sent to the %s, moved counters other than InCsumErrors: before %+v after %+v", len(bad), dst, snmp, after))
+					}
+					p.listener.sessionLock.RLock()
+					ns2 := len(p.listener.sessions)
+					p.listener.sessionLock.RUnlock()
+					if ns2 != ns {
+						viol("C06:failed-check-changes-state:sessions:through-the-receive-loop:"+dst, fmt.Sprintf("the listener had %d sessions before and %d after datagrams that cannot pass the integrity check", ns, ns2))
+					}
+					if done.Len() > 0 {
+						r := done.Recv()
+						viol("C06:failed-check-disturbs-a-blocked-reader:through-the-receive-loop:"+dst, fmt.Sprintf("a Read blocked on the %s returned (%d, %v) after datagrams that cannot pass the integrity check", dst, r.n, r.err))
+						return
+					}
+					// a second exchange: the peer writes, the blocked reader gets exactly that
+					msg := vfPayload(7, 25+round, round)
+					if _, err := peer.Write(msg); err != nil {
+						viol("C06:harness:second-exchange", fmt.Sprintf("Write failed: %v", err))
+						return
+					}
+					r := done.Recv()
+					if r.err != nil || !bytes.Equal(buf[:r.n], msg) {
+						viol("C06:failed-check-has-an-effect:second-exchange:through-the-receive-loop:"+dst, fmt.Sprintf("after datagrams that cannot pass the integrity check the next message to the %s was read as (%d bytes, %v), expected %d bytes", dst, r.n, r.err, len(msg)))
+						return
+					}
+					vrt.Sleep(300 * time.Millisecond)
+				}
+				p.teardown()
+			})
+			if out.Status != vrt.Done {
+				viol("C06:run:"+out.Status.String()+":through-the-receive-loop", fmt.Sprintf("execution ended %s: %s %s", out.Status, out.Fail, out.Stack))
+			}
+			u.Executions, u.NonTrivial, u.EndStatesN = injected, injected, injected
 			if len(u.Violations) > 0 {
 				u.Exhaustive = false
 			}
